@@ -76,7 +76,7 @@ pub fn ntok(sc: &Scenario) -> usize {
 pub struct Scenario {
     pub name: &'static str,
     /// quick tier: explored one step deeper on the polling driver (the two shapes the property
-    /// names explicitly)
+    /// names explicitly: two recvs on one socket, recv + PollOnce on one descriptor)
     pub deeper: bool,
     pub fds: Vec<FdKind>,
     pub ops: Vec<OpSpec>,
